@@ -122,6 +122,18 @@ pub fn corpus(tier: Tier) -> Vec<String> {
             }
         }
     }
+    // 2b. every string up to length 4 over a format-focused alphabet after -printf
+    let fa = ['\\', '%', '0', '1', '7', '8', '9', 'p', 'A', '{'];
+    for len in 1..=4usize {
+        for mut idx in 0..fa.len().pow(len as u32) {
+            let mut s = String::new();
+            for _ in 0..len {
+                s.push(fa[idx % fa.len()]);
+                idx /= fa.len();
+            }
+            out.push(format!("-printf '{s}'"));
+        }
+    }
     // 3. prefixes and single-character mutations of seeds
     for s in seeds() {
         let idx: Vec<usize> = s.char_indices().map(|(i, _)| i).chain(std::iter::once(s.len())).collect();
@@ -166,6 +178,20 @@ pub fn corpus(tier: Tier) -> Vec<String> {
         out.push(format!("-name {}", "x".repeat(k * 4)));
         out.push(format!("-type {}", vec!["f"; k].join(",")));
         out.push(format!("{}", "-depth ".repeat(k)));
+    }
+    // 5a. many distinct resources in one expression (identifier numbers and frame tags grow)
+    for k in [2usize, 9, 10, 16, 17, 30, 31, 32, 64, 100, 126, 127, 128, 129, 200, 254, 255, 256, 257, 300] {
+        let files: Vec<String> = (0..k).map(|i| format!("-fprint f{i}")).collect();
+        out.push(files.join(" "));
+        let names: Vec<String> = (0..k).map(|i| format!("-name n{i}")).collect();
+        if names.join(" -o ").len() + 10 <= 4096 {
+            out.push(format!("( {} ) -print0", names.join(" -o ")));
+            out.push(format!("{} -print", names.join(" -o ")));
+        }
+        let mixed: Vec<String> = (0..k).map(|i| format!("-name n{i} -fprint0 f{i}")).collect();
+        if mixed.join(" -o ").len() <= 4096 {
+            out.push(mixed.join(" -o "));
+        }
     }
     // 5b. a multi-byte character at every byte offset 0..=128 of a long word, in every position
     // a word can take (unknown word, bad argument of each argument language, good string argument)
